@@ -641,6 +641,51 @@ fn nest(open: &str, mid: &str, close: &str, n: usize) -> String {
     s
 }
 /// the reproduced F-C15-stack inputs and every other bracketed/recursive construct, nested deeply
+/// integer-literal extremes in every position where the grammar takes a number
+fn numeric_inputs() -> Vec<(String, String)> {
+    let nums = [
+        "0", "1", "2147483647", "2147483648", "4294967295", "4294967296", "4294967297", "9007199254740992", "9007199254740993",
+        "9223372036854775807", "9223372036854775808", "18446744073709551615", "18446744073709551616",
+        "1000000000000000000000000000000", "00000000000000000000000000000000000001", "1e400", "1.7976931348623157e308", "4294967296.5",
+    ];
+    let mut v = vec![];
+    for n in nums {
+        let mut add = |name: &str, s: String| v.push((format!("num-{name}-{n}"), s));
+        add("varchar", format!("CREATE TABLE t (name VARCHAR({n}))"));
+        add("char", format!("CREATE TABLE t (name CHAR({n}))"));
+        add("decimal-p", format!("CREATE TABLE t (d DECIMAL({n}))"));
+        add("decimal-ps", format!("CREATE TABLE t (d DECIMAL(10, {n}))"));
+        add("decimal-both", format!("CREATE TABLE t (d DECIMAL({n}, {n}))"));
+        add("numeric", format!("CREATE TABLE t (d NUMERIC({n}, 2), e NUMERIC(3, {n}))"));
+        add("cast-varchar", format!("SELECT CAST(a AS VARCHAR({n})) FROM t"));
+        add("cast-decimal", format!("SELECT CAST(a AS DECIMAL({n}, {n})) FROM t"));
+        add("cast-in-where", format!("SELECT a FROM t WHERE CAST(a AS CHAR({n})) = 'x'"));
+        add("limit", format!("SELECT a FROM t LIMIT {n}"));
+        add("offset", format!("SELECT a FROM t LIMIT 1 OFFSET {n}"));
+        add("literal", format!("SELECT {n} FROM t WHERE a = {n} AND b < -{n}"));
+        add("in-list", format!("SELECT a FROM t WHERE a IN ({n}, -{n}) OR a BETWEEN {n} AND {n}"));
+        add("array", format!("SELECT [{n}, {n}] FROM t"));
+        add("insert", format!("INSERT INTO t (a) VALUES ({n}), (-{n})"));
+        add("update", format!("UPDATE t SET a = {n} WHERE a = {n}"));
+        add("node-id", format!("NODE GET {n}"));
+        add("edge", format!("EDGE CREATE {n} -> {n} : knows"));
+        add("neighbors", format!("NEIGHBORS {n} OUTGOING"));
+        add("path", format!("PATH SHORTEST {n} -> {n}"));
+        add("path-limit", format!("PATH 1 -> 2 LIMIT {n}"));
+        add("similar-limit", format!("SIMILAR [1.0, 2.0] LIMIT {n}"));
+        add("similar-vec", format!("SIMILAR [{n}, {n}] LIMIT 2"));
+        add("embed", format!("EMBED STORE 'k' [{n}, -{n}]"));
+        add("find-limit", format!("FIND NODE person WHERE a = {n} LIMIT {n}"));
+        add("show-embeddings", format!("SHOW EMBEDDINGS LIMIT {n}"));
+        add("chain-rollback", format!("CHAIN ROLLBACK {n}"));
+        add("chain-drift", format!("CHAIN DRIFT {n} {n}"));
+        add("checkpoint", format!("CHECKPOINTS LIMIT {n}"));
+        add("expr", format!("{n} + {n} * -{n}"));
+        add("varchar-col2", format!("CREATE TABLE t (a INT, b VARCHAR({n}) NOT NULL, c CHAR({n}))"));
+    }
+    v
+}
+
 fn deep_inputs(n: usize) -> Vec<(String, String)> {
     let mut v = vec![];
     let mut add = |name: &str, s: String| v.push((format!("{name}x{n}"), s));
@@ -708,7 +753,13 @@ fn gen_statement(r: &mut Rng, dist: &mut Dist) -> String {
         3 => format!("INSERT INTO t (a, b) VALUES (1, {w}), (2, 's')"),
         4 => format!("UPDATE t SET a = {w}, b = 2 WHERE {w}"),
         5 => format!("DELETE FROM t WHERE {w}"),
-        6 => "CREATE TABLE t (a INT NOT NULL, b TEXT, c FLOAT, PRIMARY KEY (a))".to_string(),
+        6 => format!(
+            "CREATE TABLE t (a INT NOT NULL, b VARCHAR({}), c DECIMAL({}, {}), d CHAR({}), PRIMARY KEY (a))",
+            r.pick(&["10", "255", "4294967295", "4294967296", "9223372036854775807", "9223372036854775808"]),
+            r.pick(&["10", "4294967296", "18446744073709551615"]),
+            r.pick(&["2", "4294967297", "9223372036854775807"]),
+            r.pick(&["1", "2147483648", "4294967296"])
+        ),
         7 => "CREATE INDEX idx ON t (a)".to_string(),
         8 => "DROP TABLE IF EXISTS t".to_string(),
         9 => format!("NODE CREATE person {{ name: 'x', age: {} }}", r.below(100)),
@@ -1141,6 +1192,9 @@ mod router_diff {
         CreateIndex(&'static str),
         DropIndex(&'static str),
         Insert(i64, Option<i64>, &'static str),
+        /// INSERT INTO t (cols...) VALUES (lits...): explicit list in any order / subset / duplicates /
+        /// unknown columns; None = no column list (schema order)
+        InsertCols(Option<Vec<&'static str>>, Vec<Vec<u64>>),
         Update(i64, M),
         Delete(M),
         Select(String, Option<M>), // text after WHERE (None = no WHERE clause)
@@ -1155,6 +1209,14 @@ mod router_diff {
                 Some(b1) => format!("INSERT INTO t (a, b, x) VALUES ({a1}, {b1}, '{x1}')"),
                 None => format!("INSERT INTO t (a, x) VALUES ({a1}, '{x1}')"),
             },
+            St::InsertCols(cols, rows) => {
+                let vals: Vec<String> =
+                    rows.iter().map(|row| format!("({})", row.iter().map(|v| lit2_sql(*v)).collect::<Vec<_>>().join(", "))).collect();
+                match cols {
+                    Some(cols) => format!("INSERT INTO t ({}) VALUES {}", cols.join(", "), vals.join(", ")),
+                    None => format!("INSERT INTO t VALUES {}", vals.join(", ")),
+                }
+            }
             St::Update(nv, e) => format!("UPDATE t SET b = {nv} WHERE {}", cond2_sql(e)),
             St::Delete(e) => format!("DELETE FROM t WHERE {}", cond2_sql(e)),
             St::Select(w, _) => {
@@ -1192,6 +1254,27 @@ mod router_diff {
                 }
                 m.insert("x".to_string(), Value::String((*x1).into()));
                 ok(e.insert("t", m).map(|_| ()).map_err(|x| x.to_string()))
+            }
+            St::InsertCols(cols, rows) => {
+                // the statement names a column for every value (the i-th listed column, or the i-th
+                // schema column without a list); rows are inserted one after the other
+                let schema_order = ["a", "b", "x"];
+                let mut all_ok = true;
+                for row in rows {
+                    let mut m = HashMap::new();
+                    let names: Vec<&str> = match cols {
+                        Some(c) => c.clone(),
+                        None => schema_order.to_vec(),
+                    };
+                    for (cname, v) in names.iter().zip(row.iter()) {
+                        m.insert((*cname).to_string(), lit2(*v));
+                    }
+                    if e.insert("t", m).is_err() {
+                        all_ok = false;
+                        break;
+                    }
+                }
+                if all_ok { "ok".to_string() } else { "err".to_string() }
             }
             St::Update(nv, c) => {
                 let mut m = HashMap::new();
@@ -1327,6 +1410,7 @@ mod router_diff {
                 St::Create | St::Drop => "cached.table_ddl",
                 St::CreateIndex(_) | St::DropIndex(_) => "cached.index_ddl",
                 St::Insert(..) => "cached.insert",
+                St::InsertCols(..) => "cached.insert_column_list",
                 St::Update(..) | St::Delete(_) => "cached.update_delete",
             });
             if want.starts_with("count 0") {
@@ -1426,6 +1510,32 @@ mod router_diff {
                 St::Create, St::Insert(1, Some(2), "s"), St::Insert(2, Some(1), "S"), sel(1), sel(3), St::CreateIndex("a"), sel(1), St::CreateIndex("x"), sel(3), sel(4),
                 St::DropIndex("a"), sel(1), St::DropIndex("x"), sel(3), St::DropIndex("x"), sel(3),
             ]),
+            ("corpus insert column lists", vec![
+                St::Create,
+                St::InsertCols(Some(vec!["b", "a", "x"]), vec![vec![2, 1, 4]]),          // permuted, same types: b=2, a=1
+                sel(0),
+                St::InsertCols(Some(vec!["x", "a"]), vec![vec![5, 2]]),                  // subset, permuted, mixed types
+                sel(0),
+                St::InsertCols(Some(vec!["x", "b", "a"]), vec![vec![4, 1, 2], vec![6, 2, 1]]), // multi-row
+                sel(0), sel(1),
+                St::InsertCols(Some(vec!["a", "x", "a"]), vec![vec![1, 4, 2]]),          // duplicate column
+                sel(0),
+                St::InsertCols(Some(vec!["a", "nope", "x"]), vec![vec![1, 2, 4]]),       // unknown column
+                sel(0),
+                St::InsertCols(Some(vec!["nope", "a", "x"]), vec![vec![2, 1, 5]]),
+                sel(0),
+                St::InsertCols(None, vec![vec![1, 2, 4]]),                               // no list: schema order
+                St::InsertCols(None, vec![vec![2, 1]]),                                  // fewer values than columns
+                St::InsertCols(Some(vec!["b", "a"]), vec![vec![1, 2]]),                  // NOT NULL x missing
+                sel(0), sel(3),
+            ]),
+            ("corpus failed multi-row insert", vec![
+                St::Create, St::InsertCols(Some(vec!["a", "b", "x"]), vec![vec![2, 2, 6]]), sel(0), sel(1),
+                // second row has a type error: the first row stays, the statement answers with an error
+                St::InsertCols(Some(vec!["x", "b", "a"]), vec![vec![4, 2, 1], vec![5, 6, 2]]),
+                sel(0), sel(1), sel(3),
+                St::Update(9, M::Bin(2, a(103), Box::new(M::Atom(4)))), sel(0),
+            ]),
             ("corpus literal case", vec![
                 St::Create, St::Insert(1, Some(2), "s"), St::Insert(2, Some(2), "S"), sel(3), sel(4), sel(3), sel(6), sel(4),
             ]),
@@ -1445,6 +1555,35 @@ mod router_diff {
                         let e = cond2(r);
                         St::Select(cond2_sql(&e), Some(e))
                     }
+                } else if k < 50 {
+                    // explicit column lists: permutations, subsets, duplicates, unknown columns
+                    let mut cols: Vec<&'static str> = vec!["a", "b", "x"];
+                    r.shuffle(&mut cols);
+                    if r.chance(1, 3) {
+                        let i = r.below(cols.len() as u64) as usize;
+                        cols.remove(i);
+                    }
+                    if r.chance(1, 6) {
+                        let i = r.below(cols.len() as u64 + 1) as usize;
+                        cols.insert(i, *r.pick(&["nope", "a", "x"]));
+                    }
+                    let nrows = r.range(1, 2) as usize;
+                    let rows: Vec<Vec<u64>> = (0..nrows)
+                        .map(|_| {
+                            cols.iter()
+                                .map(|c| {
+                                    if r.chance(1, 10) {
+                                        r.range(1, 6)
+                                    } else if *c == "x" {
+                                        *r.pick(&[4u64, 5, 6])
+                                    } else {
+                                        *r.pick(&[1u64, 2, 3])
+                                    }
+                                })
+                                .collect()
+                        })
+                        .collect();
+                    St::InsertCols(if r.chance(1, 8) { None } else { Some(cols) }, rows)
                 } else if k < 58 {
                     St::Insert(*r.pick(&[1i64, 2, 42]), if r.chance(3, 4) { Some(*r.pick(&[1i64, 2])) } else { None }, *r.pick(&["s", "S", ""]))
                 } else if k < 68 {
@@ -1686,6 +1825,7 @@ fn main() {
     for n in [100usize, 1000, 5000] {
         inputs.extend(deep_inputs(n));
     }
+    inputs.extend(numeric_inputs());
     let ncorpus = inputs.len();
     let nfuzz = args.budget(2500, 150000);
     for i in 0..nfuzz {
